@@ -18,6 +18,7 @@ func All() map[string]core.Prop {
 		"C15": C15{},
 		"C16": C16{},
 		"C17": C17{},
+		"C18": C18{},
 		"C19": C19{},
 	}
 }
